@@ -297,8 +297,22 @@ def _warm_start_tie_family():
                            "always_oracle": True})
 
 
+def _both_wires_family():
+    """Searches whose answer cuts BOTH wires in front of a gate (wire cuts only, two qubits per subcircuit): the two markers in front of one gate
+    must come out in the same order in every interpreter (fresh interpreters under several PYTHONHASHSEEDs; qubits in one or two registers)"""
+    progs = [[(0, 1), (2, 3), (0, 2), (1, 3)], [(0, 1), (2, 3), (0, 1), (1, 2), (0, 1)], [(0, 1), (2, 3), (1, 2), (0, 3), (1, 2)]]
+    for k, prog in enumerate(progs):
+        for qregs in ((None, [2, 2]) if k == 0 else (None,)):
+            tgt = {"nq": 4, "instrs": [{"name": "cx", "qubits": list(q)} for q in prog], "seed": 11 + k, "max_gamma": 1e6, "max_backjumps": None,
+                   "gate_lo": False, "wire_lo": True, "width": 2, "exact": True}
+            if qregs:
+                tgt["qregs"] = qregs
+            yield ("history", {"target": tgt, "history": [], "scramble": [1, 2, 3], "fresh": True, "hashseeds": [1, 2, 3, 4, 5], "always_oracle": True})
+
+
 def cases(rng, tier):
     N = 36 if tier == "quick" else 300
+    yield from _both_wires_family()
     yield from _warm_start_tie_family()
     yield from _limits_family()
     yield from _session_family()
@@ -677,7 +691,8 @@ def run_real(kind, payload):
             if _fingerprint() != f0:
                 notes.append("global tables changed by the repeated calls")
         if payload.get("fresh"):
-            for hs in ((None,) if not payload.get("hashseeds") else (1, 3)):
+            hss = payload.get("hashseeds")
+            for hs in ((None,) if not hss else (tuple(hss) if isinstance(hss, (list, tuple)) else (1, 3))):
                 c = _fresh(tgt, hs)
                 if c != a:
                     notes.append(f"fresh interpreter{'' if hs is None else ' (PYTHONHASHSEED=%d)' % hs} gives {json.dumps(c)[:150]}, "
